@@ -13,6 +13,12 @@ package container
 // (compartments before the read offset hold no data: checkOffset may move the offset back over them)
 //@ spec wf(c *Container) bool = c != nil && 0 <= c.offset && c.offset <= len(c.compartments) && (len(c.compartments) > 0 ==> c.offset < len(c.compartments)) && (forall k int :: soff(c.compartments) <= k && k < soff(c.compartments) + c.offset ==> len(elems(c.compartments)[k]) == 0)
 
+// A-sum (assumed, never proved): partial sums of compartment lengths do not overflow.
+// Justified by finite memory as long as compartments do not alias each other many times over.
+//@ spec bounded(c *Container) bool = forall lo int, hi int :: 0 <= sumRow(elems(c.compartments), lo, hi) && sumRow(elems(c.compartments), lo, hi) <= 1<<62
+
+//@ lemma L-sum-split by induction on hi from mid: forall r ~[]byte, lo int, mid int, hi int :: lo <= mid && mid <= hi && pos(lo) && pos(hi) ==> sumRow(r, lo, hi) == sumRow(r, lo, mid) + sumRow(r, mid, hi)
+
 // rows that agree (possibly shifted) on the lengths of their entries have the same sum
 //@ lemma L-sum-shift by induction on h1 from lo1 generalizing h2: forall r1 ~[]byte, r2 ~[]byte, lo1 int, lo2 int, h1 int, h2 int :: pos(lo1) && pos(lo2) && pos(h1) && pos(h2) && lo1 <= h1 && h1 - lo1 == h2 - lo2 && (forall k int :: lo1 <= k && k < h1 ==> len(r1[k]) == len(r2[k + (lo2 - lo1)])) ==> sumRow(r1, lo1, h1) == sumRow(r2, lo2, h2)
 
@@ -101,9 +107,13 @@ package container
 
 //@ func (*Container).Peek
 //@   requires wf(c)
+//@   assume bounded(c)
 //@   at return#1 use L-sum-empty(elems(c.compartments), soff(c.compartments) + c.offset, soff(c.compartments) + len(c.compartments))
+//@   at return#2 use L-sum-front(elems(c.compartments), soff(c.compartments) + c.offset, soff(c.compartments) + len(c.compartments))
+//@   at return#4 use L-sum-split(elems(c.compartments), soff(c.compartments) + c.offset, soff(c.compartments) + i + 1, soff(c.compartments) + len(c.compartments))
 //@   ensures n <= 0 ==> r0 == nil
-//@   ensures n > 0 ==> len(r0) == n || (len(r0) == clen(c) && clen(c) < n)
+//@   ensures n > 0 && n <= clen(c) ==> len(r0) == n
+//@   ensures n > 0 && n > clen(c) ==> len(r0) == clen(c)
 //@   ensures elems(c.compartments) == old(elems(c.compartments))
 //@   loop 0 invariant c.offset <= i && i <= len(c.compartments)
 //@   loop 0 invariant 0 <= n && n < old(n) && copySlice == slice[n:] && len(slice) == old(n) && cap(slice) == old(n) && fresh(slice)
@@ -120,13 +130,19 @@ package container
 //@ func (*Container).skip
 //@   requires wf(c) && n >= 0
 //@   modifies c.offset, elems(c.compartments)
+//@   assume bounded(c)
 //@   ghost var row0 ~[]byte = elems(c.compartments)
 //@   ensures wf(c)
-//@   ensures clen(c) == old(clen(c)) - n || (clen(c) == 0 && old(clen(c)) < n)
+//@   ensures n <= old(clen(c)) ==> clen(c) == old(clen(c)) - n
+//@   ensures n > old(clen(c)) ==> clen(c) == 0
 //@   loop 0 invariant old(c.offset) <= i && i <= len(c.compartments) && n >= 0 && n <= old(n) && c.offset == i
 //@   loop 0 invariant forall k int :: soff(c.compartments) <= k && k < soff(c.compartments) + i ==> len(elems(c.compartments)[k]) == 0
 //@   loop 0 invariant forall k int :: soff(c.compartments) + i <= k && k < soff(c.compartments) + len(c.compartments) ==> elems(c.compartments)[k] == row0[k]
 //@   loop 0 invariant sumRow(row0, soff(c.compartments) + i, soff(c.compartments) + len(c.compartments)) == old(clen(c)) - (old(n) - n)
+//@   loop 0 invariant sumRow(row0, soff(c.compartments) + old(c.offset), soff(c.compartments) + i) == old(n) - n
+//@   loop 0 use L-sum-empty(row0, soff(c.compartments) + old(c.offset), soff(c.compartments) + old(c.offset))
+//@   loop 0 use L-sum-top(row0, soff(c.compartments) + old(c.offset), soff(c.compartments) + i + 1)
+//@   loop 0 use L-sum-split(row0, soff(c.compartments) + old(c.offset), soff(c.compartments) + i + 1, soff(c.compartments) + len(c.compartments))
 //@   loop 0 use L-sum-front(row0, soff(c.compartments) + i, soff(c.compartments) + len(c.compartments))
 //@   loop 0 decreases len(c.compartments) - i
 //@   loop 0 use L-sum-empty(row0, soff(c.compartments) + i, soff(c.compartments) + len(c.compartments))
@@ -134,6 +150,7 @@ package container
 //@   at return#0 assert forall k int :: soff(c.compartments) + c.offset <= k && k < soff(c.compartments) + len(c.compartments) ==> len(elems(c.compartments)[k]) == 0
 //@   at return#0 use L-sum-zero(elems(c.compartments), soff(c.compartments) + c.offset, soff(c.compartments) + len(c.compartments))
 //@   at return#0 assert clen(c) == 0 && old(clen(c)) == old(n) - n
+//@   at return#0 assert n >= 0
 //@   at return#1 assert c.offset == i && len(elems(c.compartments)[soff(c.compartments) + i]) == len(row0[soff(c.compartments) + i]) - n
 //@   at return#1 assert forall k int :: soff(c.compartments) + i + 1 <= k && k < soff(c.compartments) + len(c.compartments) ==> len(elems(c.compartments)[k]) == len(row0[k + ((soff(c.compartments) + i + 1) - (soff(c.compartments) + i + 1))])
 //@   at return#1 use L-sum-shift(elems(c.compartments), row0, soff(c.compartments) + i + 1, soff(c.compartments) + i + 1, soff(c.compartments) + len(c.compartments), soff(c.compartments) + len(c.compartments))
@@ -149,9 +166,156 @@ package container
 //@   at return#2 use L-sum-zero(elems(c.compartments), soff(c.compartments) + c.offset, soff(c.compartments) + len(c.compartments))
 //@   at return#2 assert clen(c) == old(clen(c)) - old(n)
 
+// ---- consuming operations: queue semantics over the abstract length
+
 //@ func (*Container).Get
+//@   requires wf(c)
+//@   assume bounded(c)
+//@   modifies c.offset, elems(c.compartments)
+//@   ensures wf(c)
+//@   ensures (r1 == nil) == (0 <= n && n <= old(clen(c)))
+//@   ensures r1 == nil ==> len(r0) == n && clen(c) == old(clen(c)) - n
+//@   ensures r1 != nil ==> r0 == nil && clen(c) == old(clen(c)) && elems(c.compartments) == old(elems(c.compartments)) && c.offset == old(c.offset)
+
+//@ func (*Container).GetMax
+//@   requires wf(c)
+//@   assume bounded(c)
+//@   modifies c.offset, elems(c.compartments)
+//@   ensures wf(c)
+//@   ensures n <= 0 ==> len(r0) == 0 && clen(c) == old(clen(c))
+//@   ensures n > 0 && n <= old(clen(c)) ==> len(r0) == n && clen(c) == old(clen(c)) - n
+//@   ensures n > old(clen(c)) ==> len(r0) == old(clen(c)) && clen(c) == 0
+
+//@ func (*Container).GetAll
+//@   requires wf(c)
+//@   assume bounded(c)
+//@   modifies c.offset, elems(c.compartments)
+//@   ensures wf(c)
+//@   ensures len(r0) == old(clen(c)) && clen(c) == 0
+
+//@ func (*Container).GetNextN8
+//@   requires wf(c)
+//@   assume bounded(c)
+//@   modifies c.offset, elems(c.compartments)
+//@   ensures wf(c)
+//@   ensures r1 == nil ==> clen(c) == old(clen(c)) - vlen(uint64(r0))
+//@   ensures r1 != nil ==> clen(c) == old(clen(c))
+
+//@ func (*Container).GetNextN16
+//@   requires wf(c)
+//@   assume bounded(c)
+//@   modifies c.offset, elems(c.compartments)
+//@   ensures wf(c)
+//@   ensures r1 == nil ==> 1 <= old(clen(c)) - clen(c) && old(clen(c)) - clen(c) <= 3
+//@   ensures r1 != nil ==> clen(c) == old(clen(c))
+
+//@ func (*Container).GetNextN32
+//@   requires wf(c)
+//@   assume bounded(c)
+//@   modifies c.offset, elems(c.compartments)
+//@   ensures wf(c)
+//@   ensures r1 == nil ==> 1 <= old(clen(c)) - clen(c) && old(clen(c)) - clen(c) <= 5
+//@   ensures r1 != nil ==> clen(c) == old(clen(c))
+
+//@ func (*Container).GetNextN64
+//@   requires wf(c)
+//@   assume bounded(c)
+//@   modifies c.offset, elems(c.compartments)
+//@   ensures wf(c)
+//@   ensures r1 == nil ==> 1 <= old(clen(c)) - clen(c) && old(clen(c)) - clen(c) <= 10
+//@   ensures r1 != nil ==> clen(c) == old(clen(c))
+
+// ---- numbers, blocks
+
+//@ func (*Container).AppendNumber
+//@   requires wf(c)
+//@   modifies c.compartments, elems(c.compartments)
+//@   at return assert len(c.compartments) == old(len(c.compartments)) + 1 && c.offset == old(c.offset)
+//@   at return assert forall k int :: soff(c.compartments) <= k && k < soff(c.compartments) + old(len(c.compartments)) ==> elems(c.compartments)[k] == old(elems(c.compartments))[k + (old(soff(c.compartments)) - soff(c.compartments))]
+//@   at return assert forall k int :: soff(c.compartments) <= k && k < soff(c.compartments) + c.offset ==> len(elems(c.compartments)[k]) == 0
+//@   at return assert len(elems(c.compartments)[soff(c.compartments) + old(len(c.compartments))]) == vlen(n)
+//@   at return assert forall k int :: soff(c.compartments) + c.offset <= k && k < soff(c.compartments) + old(len(c.compartments)) ==> len(elems(c.compartments)[k]) == len(old(elems(c.compartments))[k + (old(soff(c.compartments) + c.offset) - (soff(c.compartments) + c.offset))])
+//@   at return use L-sum-shift(elems(c.compartments), old(elems(c.compartments)), soff(c.compartments) + c.offset, old(soff(c.compartments) + c.offset), soff(c.compartments) + old(len(c.compartments)), old(soff(c.compartments) + len(c.compartments)))
+//@   at return assert sumRow(elems(c.compartments), soff(c.compartments) + c.offset, soff(c.compartments) + old(len(c.compartments))) == old(clen(c))
+//@   at return use L-sum-top(elems(c.compartments), soff(c.compartments) + c.offset, soff(c.compartments) + old(len(c.compartments)) + 1)
+//@   ensures c.offset == old(c.offset) && len(c.compartments) == old(len(c.compartments)) + 1
+//@   ensures wf(c)
+//@   ensures clen(c) == old(clen(c)) + vlen(n)
+
+//@ func (*Container).AppendInt
+//@   requires wf(c)
+//@   modifies c.compartments, elems(c.compartments)
+//@   at return assert len(c.compartments) == old(len(c.compartments)) + 1 && c.offset == old(c.offset)
+//@   at return assert forall k int :: soff(c.compartments) <= k && k < soff(c.compartments) + old(len(c.compartments)) ==> elems(c.compartments)[k] == old(elems(c.compartments))[k + (old(soff(c.compartments)) - soff(c.compartments))]
+//@   at return assert forall k int :: soff(c.compartments) <= k && k < soff(c.compartments) + c.offset ==> len(elems(c.compartments)[k]) == 0
+//@   at return assert len(elems(c.compartments)[soff(c.compartments) + old(len(c.compartments))]) == vlen(uint64(n))
+//@   at return assert forall k int :: soff(c.compartments) + c.offset <= k && k < soff(c.compartments) + old(len(c.compartments)) ==> len(elems(c.compartments)[k]) == len(old(elems(c.compartments))[k + (old(soff(c.compartments) + c.offset) - (soff(c.compartments) + c.offset))])
+//@   at return use L-sum-shift(elems(c.compartments), old(elems(c.compartments)), soff(c.compartments) + c.offset, old(soff(c.compartments) + c.offset), soff(c.compartments) + old(len(c.compartments)), old(soff(c.compartments) + len(c.compartments)))
+//@   at return assert sumRow(elems(c.compartments), soff(c.compartments) + c.offset, soff(c.compartments) + old(len(c.compartments))) == old(clen(c))
+//@   at return use L-sum-top(elems(c.compartments), soff(c.compartments) + c.offset, soff(c.compartments) + old(len(c.compartments)) + 1)
+//@   ensures c.offset == old(c.offset) && len(c.compartments) == old(len(c.compartments)) + 1
+//@   ensures wf(c)
+//@   ensures clen(c) == old(clen(c)) + vlen(uint64(n))
+
+//@ func (*Container).PrependNumber
+//@   requires wf(c)
+//@   modifies c.compartments, c.offset, elems(c.compartments)
+//@   ensures wf(c) && clen(c) == old(clen(c)) + vlen(n)
+
+//@ func (*Container).PrependInt
+//@   requires wf(c)
+//@   modifies c.compartments, c.offset, elems(c.compartments)
+//@   ensures wf(c) && clen(c) == old(clen(c)) + vlen(uint64(n))
+
+//@ func (*Container).AppendAsBlock
+//@   requires wf(c)
+//@   modifies c.compartments, elems(c.compartments)
+//@   ensures wf(c) && clen(c) == old(clen(c)) + vlen(uint64(len(data))) + len(data)
+
+//@ func (*Container).PrependAsBlock
+//@   requires wf(c)
+//@   modifies c.compartments, c.offset, elems(c.compartments)
+//@   ensures wf(c) && clen(c) == old(clen(c)) + vlen(uint64(len(data))) + len(data)
+
+//@ func (*Container).PrependLength
+//@   requires wf(c)
+//@   modifies c.compartments, c.offset, elems(c.compartments)
+//@   ensures wf(c) && clen(c) == old(clen(c)) + vlen(uint64(old(clen(c))))
+
+//@ func (*Container).GetNextBlock
+//@   requires wf(c)
+//@   assume bounded(c)
+//@   modifies c.offset, elems(c.compartments)
+//@   ensures wf(c)
+//@   ensures r1 == nil ==> clen(c) <= old(clen(c)) - 1 - len(r0)
+//@   ensures r1 != nil ==> r0 == nil
+
+// ---- splitting, compiling, serialization
+
+//@ func (*Container).PeekContainer
+//@   requires wf(c)
+//@   ensures n < 0 ==> newC == nil
+//@   ensures newC != nil ==> fresh(newC) && wf(newC) && newC.offset == 0 && (newC.compartments == nil || fresh(newC.compartments))
+//@   ensures elems(c.compartments) == old(elems(c.compartments)) && c.offset == old(c.offset) && c.compartments == old(c.compartments)
+//@   loop 0 invariant c.offset <= i && i <= len(c.compartments) && n >= 0 && newC != nil && fresh(newC) && newC.offset == 0
+//@   loop 0 invariant c.compartments == old(c.compartments) && (newC.compartments == nil || fresh(newC.compartments))
+//@   loop 0 invariant elems(c.compartments) == old(elems(c.compartments))
+//@   loop 0 decreases len(c.compartments) - i
+
+//@ func (*Container).GetAsContainer
 //@   requires wf(c)
 //@   modifies c.offset, elems(c.compartments)
 //@   ensures wf(c)
-//@   ensures r1 == nil ==> len(r0) == n
+//@   ensures r1 == nil ==> r0 != nil && wf(r0)
+//@   ensures r1 != nil ==> r0 == nil
 //@   ensures n < 0 ==> r1 != nil
+
+//@ func (*Container).UnmarshalJSON
+//@   requires wf(c)
+//@   modifies c.compartments, c.offset
+//@   ensures wf(c)
+
+//@ func (*Container).clean
+//@   requires wf(c)
+//@   modifies c.compartments, c.offset
+//@   ensures wf(c) && clen(c) == old(clen(c))
